@@ -1001,7 +1001,6 @@ func popperReachedFrom(fn, tryPop *ssa.Function, seen map[*ssa.Function]bool, de
 	return out
 }
 
-
 // tokenClaim recognises the claim of the hand-off token: CompareAndSwap on an atomic.Uint32, made directly or through a
 // straight-line method of the module that wraps exactly that operation on a field of its receiver and returns its
 // result. It returns the token object (the atomic itself, or the value whose method was called).
